@@ -73,6 +73,10 @@ def make_case(seed):
                     tw = rng.choice([avail - 2, avail - 1, avail, avail + 1, avail + 2, 2 * avail, 2 * avail + 1, 3 * avail,
                                      5 * avail])
                     t = edge_text(rng, max(1, tw), meta['tabs'] in (1, 2, 4, 8) and rng.random() < 0.3)
+                if opts.get('--line-numbers-right-format') == '' and t[:1] in gen.LEADING_EXTENDERS:
+                    # without a gutter between the panels a zero-width character that opens the right panel cannot be told
+                    # from one that closes the left panel
+                    t = t.lstrip(''.join(gen.LEADING_EXTENDERS)) or 'x'
                 new.append((k, t))
             # paired long lines: make plus similar to minus sometimes
             for i in range(len(new) - 1):
@@ -152,6 +156,11 @@ def check_output(d, meta, W, out, counters, wrapped_kinds):
     return None
 
 
+def has_cluster(text):
+    import unicodedata
+    return any(unicodedata.combining(ch) or ch in '\u200d\ufe0f\ufe0e' for ch in text)
+
+
 PAIRED_TAGS = {'minus_emph', 'minus_nonemph', 'plus_emph', 'plus_nonemph'}
 
 
@@ -229,10 +238,14 @@ def check_hunk(h, parsed, meta, max_rows, counters, wrapped_kinds):
             counters['lines_reassembled'] += 1
             if truncated:
                 counters['truncated_lines'] += 1
+                # known finding: a line holding a grapheme cluster of several code points (letter + combining mark, ZWJ or
+                # variation-selector sequence) is left unwrapped, and therefore cut after its first row, when the syntax and
+                # the diff sections of the line split that cluster differently
+                cluster = ':line-with-multi-codepoint-grapheme:cut-after-first-row' if nrows == 1 and has_cluster(exp) else ''
                 if max_rows is None:
-                    return 'truncated-although-unlimited:' + sname, 'line cut although the number of wrapped rows is unlimited', exp, shown
+                    return 'truncated-although-unlimited:' + sname + cluster, 'line cut although the number of wrapped rows is unlimited', exp, shown
                 if nrows != max_rows:
-                    return 'truncated-early:' + sname, 'line cut after %d rows, limit allows %d' % (nrows, max_rows), exp, shown
+                    return 'truncated-early:' + sname + cluster, 'line cut after %d rows, limit allows %d' % (nrows, max_rows), exp, shown
                 sh = shown.rstrip(' ')
                 if not (exp.startswith(sh) or (sh.endswith(' ') and exp.startswith(sh.rstrip(' ')))):
                     # a double-width character cut in half is replaced by a blank
